@@ -505,3 +505,56 @@ def composites_of_mixed_scale(tier, rng, rep):
 
 def spec_mink(v):
     return -v[..., 0] ** 2 + (v[..., 1:] ** 2).sum(axis=-1)
+
+
+@bounded(P, "eigenvectors_per_unit", functions=[PR + "Transformation.eigenvector", HY + "Isometry._fixpoint_data"],
+         note="Transformation.eigenvector on a composite (shapes (1,), (3,), (2,2)) against the unit objects, including eigenvalues of multiplicity >= 2 (reflections, eigenvalue 1), two "
+              "eigenvalues within the matching tolerance, and eigenvalue=None: the same projective point at each index")
+def eigenvectors_per_unit(tier, rng, rep):
+    N = 80 if tier == 'thorough' else 20
+    rep.rule = "composites of reflections of H^2 / H^3 (eigenvalue 1 has multiplicity n), of diagonalisable maps with a repeated eigenvalue in random bases, and of generic maps; requested eigenvalue: the repeated one, a simple one, None"
+    rep.bound = f"{N} composites x 3 requests"
+    for t in range(N):
+        n = 2 + t % 2
+        shape = [(1,), (3,), (2, 2)][t % 3]
+        k = int(np.prod(shape))
+        kind = ["reflections", "repeated_eigenvalue", "generic"][(t // 3) % 3]
+        mats, lam_rep, lam_simple = [], 1.0, -1.0
+        for _ in range(k):
+            if kind == "reflections":
+                while True:
+                    v = rng.normal(size=n + 1); v[0] *= 0.3
+                    q = -v[0] ** 2 + v[1:] @ v[1:]
+                    if q > 0.2:
+                        break
+                mats.append(np.asarray(h.Hyperplane(v.copy()).reflection_across().proj_data, dtype=float))
+            elif kind == "repeated_eigenvalue":
+                Pm = rng.normal(size=(n + 1, n + 1))
+                D = np.diag([2.0, 2.0] + [0.5 + 0.25 * j for j in range(n - 1)])
+                mats.append(np.linalg.inv(Pm) @ D @ Pm)
+                lam_rep, lam_simple = 2.0, 0.5
+            else:
+                Pm = rng.normal(size=(n + 1, n + 1))
+                D = np.diag([3.0, 1.5] + [0.5 + 0.2 * j for j in range(n - 1)])
+                mats.append(np.linalg.inv(Pm) @ D @ Pm)
+                lam_rep, lam_simple = 3.0, 1.5
+        Mst = np.array(mats).reshape(shape + (n + 1, n + 1))
+        for req_name, req in (("repeated", lam_rep), ("simple", lam_simple), ("none", None)):
+            inp = {"kind": kind, "shape": list(shape), "n": n, "request": req_name, "eigenvalue": req, "matrices": Mst.tolist()}
+
+            def body():
+                T = pr.Transformation(Mst.copy())
+                E_ = np.asarray((T.eigenvector(req) if req is not None else T.eigenvector()).proj_data)
+                for j, idx in enumerate(np.ndindex(*shape)):
+                    Tu = pr.Transformation(Mst[idx].copy())
+                    eu = np.asarray((Tu.eigenvector(req) if req is not None else Tu.eigenvector()).proj_data)
+                    a, b = np.asarray(E_[idx]).reshape(-1), eu.reshape(-1)
+                    if a.shape != b.shape:
+                        rep.fail("composite_equals_units", f"unit {idx}: shapes {a.shape} vs {b.shape}", inp); return
+                    cr = np.outer(a, b) - np.outer(b, a)
+                    if not np.all(np.abs(cr) <= 1e-7 * max(1e-300, np.abs(a).max() * np.abs(b).max())) or not np.any(np.abs(a) > 0):
+                        rep.fail("composite_equals_units", f"eigenvector({req_name}) of unit {idx}: composite {np.real(a).tolist()} vs unit {np.real(b).tolist()}", inp); return
+            rep.attempt("eigenvector_runs", inp, body)
+            rep.case(key=(t, req_name), nontrivial=kind != "generic", sample=inp if (t, req_name) == (0, "repeated") else None)
+            if len(rep.failures) >= 3:
+                return
